@@ -34,6 +34,27 @@ def ladder(rng, n, kind, R0=True, scale=1.0, mixed_start_rq=True):
     return s, Rs, taus
 
 
+def window_area(circuit, tmin, tmax):
+    """sum over the parallel (RQ)/(RC) units of the part of R that the analytic distribution puts between tmin and tmax"""
+    from pyimpspec.circuit.parallel import Parallel
+    tot = 0.0
+    for con in circuit.get_connections():
+        if not isinstance(con, Parallel):
+            continue
+        pars = {}
+        for el in con.get_elements(recursive=True):
+            pars.update(el.get_values())
+        R, n = pars["R"], pars.get("n", 1.0)
+        Y = pars.get("Y", pars.get("C"))
+        if abs(n - 1.0) < 1e-2:
+            tot += R          # a narrow Gaussian at R*C, well inside the window by construction of the ladders
+            continue
+        t0 = (R * Y) ** (1.0 / n)
+        F = lambda t: math.atan(math.tan(n * math.pi / 2) * math.tanh(n * math.log(t / t0) / 2))  # noqa: E731
+        tot += R / (math.pi * n) * (F(tmax) - F(tmin))
+    return tot
+
+
 def area(tau, gamma):
     import numpy as np
     lt = np.log(tau)
@@ -49,7 +70,7 @@ def run(rep, tier, seed, tr_errors):
     rep.rule = ("ladders of 1..4 (RC) or (RQ, n=0.85) elements with a series resistance (tr-nnls, mrq-fit) or without (lm), time constants >= 1.5 decades "
                 "inside 1e6..1e-3 Hz and >= 1.5 decades apart, resistances within one decade, overall scale over 4 decades, 5/10/20 points per decade; "
                 "tr-nnls (real|imaginary; lambda 1e-3, automatic -1, L-curve -2): gamma >= 0, area within 6 % of R_pol, a peak within max(0.3 decade, 1.5 grid "
-                "steps) of every R*C; lm: every (tau_k, R_k) to 1e-3 (observed up to 2e-5 on 9-decade windows); mrq-fit: area within 2 % of the sum of R; Z x k scales gamma and keeps tau, f x c "
+                "steps) of every R*C; lm: every (tau_k, R_k) to 1e-3 (observed up to 2e-5 on 9-decade windows); mrq-fit: area within 0.5 % of what the analytic (RQ) distributions carry on the reported window; Z x k scales gamma and keeps tau, f x c "
                 "scales tau by 1/c and keeps gamma (1e-6); non-trivial = completed run; distinct by (ladder, method, options)")
     rep.trusted += ["Coq 8.16.1 kernel; real-number axioms of the standard library (Print Assumptions)", "tools/tr_drt.py",
                     "scipy.optimize.nnls, the regularisation-parameter searches, the Loewner pencil's SVD/eigenproblem and lmfit are oracles: exercised, not modelled",
@@ -146,9 +167,12 @@ def run(rep, tier, seed, tr_errors):
                         tau, g = r.get_drt_data()
                         stats["mrq-fit"] += 1
                         rep.evaluations += 1
-                        a = area(tau, g) / sum(Rs)
-                        if abs(a - 1) > 0.02:
-                            bad.append((desc, "area under the m(RQ)fit distribution is %.4f x the sum of the resistances" % a))
+                        # the distribution is reported on the window of time constants of the data; the tails of a (RQ)
+                        # element (n < 1) reach beyond it, so the reference is the analytic (RQ) distribution integrated over that
+                        # window: R/(pi n) [atan(tan(n pi/2) tanh(n ln(tau/tau0)/2))], which tends to R on an unbounded window
+                        a = area(tau, g) / window_area(parse_cdc(cdc), float(np.min(tau)), float(np.max(tau)))
+                        if abs(a - 1) > 0.005:
+                            bad.append((desc, "area under the m(RQ)fit distribution is %.4f x the resistance the analytic (RQ) distributions carry on the reported window" % a))
                         pk_t, pk_g = r.get_peaks()
                         for t, R_ in zip(taus, Rs):
                             dev = min(abs(math.log10(pt / t)) for pt in pk_t) if len(pk_t) else 9.0
